@@ -22,6 +22,7 @@ let () =
     | "c17" -> Fam_serde.c17
     | "c18" -> Fam_serde.c18
     | "c19" -> Fam_macro.run
+    | "c16" -> Fam_serde_typed.run
     | _ -> prerr_endline ("unknown family " ^ fam); exit 2
   in
   let out = Buffer.create (1 lsl 16) in
